@@ -1057,6 +1057,10 @@ fn write_evidence(prop: &str, tier: &str, seed: u64, level: &str, agg: &Agg, dis
             "largest_table": agg.max_table,
             "tree_bins_at_quiescence": agg.tree_bins,
             "extra": agg.extra,
+            "runs_that_reached_the_fair_tail": agg.fair_mode_runs,
+            "runs_with_2_or_more_runnable_threads": agg.multi_runnable,
+            "lock_contention_events": agg.contended,
+            "reach_goals": props::reach_goals(prop, agg),
             "known_findings_hit": known_lines,
             "components": {
                 "real": ["flurry (all of src/, built from /repo's working tree with --cfg flurry_verif)", "seize 0.3.3 (unmodified; one call = one atomic step)", "parking_lot mutex state (try_lock/unlock)"],
